@@ -1066,6 +1066,33 @@ pub fn run_c07(tier: Tier) -> i32 {
         }
     });
     fams.push(json!({"family": "every legal move as searchmoves after an earlier search of the same position on the same engine", "positions": sm_positions.len(), "gos": stats.gos.load(Ordering::Relaxed) - before_sm, "secs": t0.elapsed().as_secs_f64()}));
+    // ---- (2b0) roots in which the right promotion piece is not the queen: plain searches and every
+    // legal move (all four promotion letters among them) as searchmoves
+    let t0 = Instant::now();
+    let before_up = stats.gos.load(Ordering::Relaxed);
+    let up_roots = underpromotion_roots(if tier == Tier::Quick { 12 } else { 400 });
+    let up_jobs: Vec<(usize, bool)> = (0..up_roots.len()).flat_map(|r| [(r, false), (r, true)]).collect();
+    par_map_fine(&up_jobs, |&(r, flip)| {
+        let root = if flip { up_roots[r].0.flip() } else { up_roots[r].0.clone() };
+        let pos_line = position_line(&root, &[]);
+        let legal: Vec<String> = root.legal().iter().map(|m| m.uci()).collect();
+        let mut s = Session::new(false);
+        s.line(&pos_line);
+        let mut specs: Vec<GoSpec> = (1..=3).map(|d| GoSpec { line: format!("go depth {}", d), needs_stop: false, searchmoves: vec![] }).collect();
+        for m in &legal {
+            specs.push(GoSpec { line: format!("go depth 2 searchmoves {}", m), needs_stop: false, searchmoves: vec![m.clone()] });
+        }
+        for spec in &specs {
+            stats.gos.fetch_add(1, Ordering::Relaxed);
+            let out = run_go(&mut s, &spec.line, Plan::virtual_rate(1_000), &none);
+            c07_judge(&rep, &root, "underpromotion", &pos_line, spec, "1us/node", &out, 0, json!({"root_class": up_roots[r].1}));
+            if out.problem.is_some() {
+                break;
+            }
+        }
+        s.quit();
+    });
+    fams.push(json!({"family": "roots in which the right promotion piece is not the queen: go depth 1..3 and every legal move as searchmoves", "roots_incl_flips": up_jobs.len(), "gos": stats.gos.load(Ordering::Relaxed) - before_up, "secs": t0.elapsed().as_secs_f64()}));
     // ---- (2b') the game goes on along the engine's own line: position P / go depth d1, then
     // `position P moves <the first one or two moves of the line the engine announced>` and, as the
     // FIRST go after that, every legal move as searchmoves under shallow and zero-budget limits. The
@@ -2209,6 +2236,39 @@ pub fn run_c16(tier: Tier) -> i32 {
         c16_judge_search(&rep, &root, &out.obs.lines, &json!({"position": pos_line, "go": go, "stopped_at_first_scaled_poll": needs_stop}), &n_lines);
     });
     let forms_secs = t_forms.elapsed().as_secs_f64();
+    // roots in which the right promotion piece is not the queen (the queen, or queen and rook,
+    // stalemate; the knight mates): promotion letters other than q in the pv, bestmove and ponder move
+    let t_up = Instant::now();
+    let up_roots = underpromotion_roots(if tier == Tier::Quick { 40 } else { 1500 });
+    let letters: std::sync::Mutex<std::collections::BTreeMap<char, u64>> = std::sync::Mutex::new(Default::default());
+    let up_jobs: Vec<(usize, bool)> = (0..up_roots.len()).flat_map(|r| [(r, false), (r, true)]).collect();
+    par_map_fine(&up_jobs, |&(r, flip)| {
+        let root = if flip { up_roots[r].0.flip() } else { up_roots[r].0.clone() };
+        let pos_line = position_line(&root, &[]);
+        let mut s = Session::new(false);
+        for d in 1..=3 {
+            s.line(&pos_line);
+            let go = format!("go depth {}", d);
+            let out = run_go(&mut s, &go, Plan::virtual_rate(1_000), &none);
+            n_searches.fetch_add(1, Ordering::Relaxed);
+            if let Some(pr) = &out.problem {
+                rep.report(format!("no_bestmove:{}", short(pr)), json!({"kind": "output", "context": {"position": pos_line, "go": go}, "lines": out.obs.lines, "detail": {"problem": pr}}));
+                break;
+            }
+            if let Some(b) = &out.best {
+                if b.len() == 5 {
+                    *letters.lock().unwrap().entry(b.chars().last().unwrap()).or_insert(0) += 1;
+                }
+            }
+            c16_judge_search(&rep, &root, &out.obs.lines, &json!({"position": pos_line, "go": go, "root_class": format!("underpromotion:{}", up_roots[r].1)}), &n_lines);
+        }
+        s.quit();
+    });
+    let letters = letters.into_inner().unwrap();
+    if letters.get(&'r').copied().unwrap_or(0) == 0 || letters.get(&'b').copied().unwrap_or(0) + letters.get(&'n').copied().unwrap_or(0) == 0 {
+        rep.machinery(format!("vacuous: the under-promotion roots did not make the engine announce a rook and a minor-piece promotion (letters seen: {:?})", letters));
+    }
+    let up_secs = t_up.elapsed().as_secs_f64();
     // neighbouring position commands: position A, go, position B (one token different), go
     let t_nb = Instant::now();
     let n_nb = position_command_sessions(&rep, tier, "C16", &n_lines);
@@ -2217,6 +2277,7 @@ pub fn run_c16(tier: Tier) -> i32 {
     let bin_lines = c16_binary(&rep, &n_lines);
     let mut cov = Coverage::new();
     cov.set("neighbouring_position_command_sessions", json!({"judged_searches": n_nb, "secs": nb_secs}));
+    cov.set("underpromotion_roots", json!({"roots_incl_flips": up_jobs.len(), "classes": ["minor (queen and rook stalemate)", "rook (queen stalemates)", "knight (knight mates, queen does not)"], "depths": [1, 2, 3], "promotion_letters_of_the_announced_bestmoves": letters.iter().map(|(k, v)| (k.to_string(), *v)).collect::<std::collections::BTreeMap<String, u64>>(), "secs": up_secs}));
     cov.set("go_forms_on_positions_with_forced_mates", json!({"roots": form_roots.len(), "go_forms": form_gos.len(), "secs": forms_secs}));
     cov.states = jobs.len() as u64;
     cov.transitions = n_lines.load(Ordering::Relaxed);
@@ -2362,6 +2423,29 @@ pub fn replay_c16(case: &Value) -> i32 {
         }
     }
     let n = AtomicU64::new(0);
+    if let (Some(pos_line), Some(go)) = (ctx["position"].as_str(), ctx["go"].as_str()) {
+        // one position, one go: executed again on a fresh engine and the fresh output judged
+        if let Some(root) = pos_of_position_line(pos_line) {
+            let needs_stop = ctx["stopped_at_first_scaled_poll"].as_bool().unwrap_or(false);
+            let mut s = Session::new(false);
+            s.line(pos_line);
+            let plan = if needs_stop { Plan { poll: Some((200, 20_000)), clock: Clock::Rate { ns_per_node: 1_000, jumps: vec![] }, gates: vec![1] } } else { Plan::virtual_rate(1_000) };
+            let out = run_go(&mut s, go, plan, &|kk| if kk == 1 && needs_stop { vec![GateAction::Stop] } else { vec![] });
+            s.quit();
+            for l in &out.obs.lines {
+                println!("{}", l);
+            }
+            if let Some(pr) = &out.problem {
+                rep.report(format!("no_bestmove:{}", short(pr)), json!({"kind": "output", "context": ctx, "lines": out.obs.lines, "detail": {"problem": pr}}));
+            } else {
+                c16_judge_search(&rep, &root, &out.obs.lines, ctx, &n);
+            }
+            println!("replay: {} violating case(s) reproduced", rep.violation_count());
+            let mut cov = Coverage::new();
+            cov.states = 1;
+            return finish(&rep, Tier::Quick, cov, started);
+        }
+    }
     c16_judge_search(&rep, &root, &lines, ctx, &n);
     println!("replay: {} violating case(s) reproduced", rep.violation_count());
     let mut cov = Coverage::new();
